@@ -70,7 +70,19 @@ def check_axes(run, A):
                              'numpy.take_along_axis', 'numpy.cumsum', 'numpy.cumprod', 'numpy.percentile'):
                     continue
                 if cname in ('numpy.all', 'numpy.any', 'method:all', 'method:any'):
-                    continue      # assertions / guards over everything
+                    # a test over everything is fine in an assertion or in front of a `raise`; as the condition of a branch that computes
+                    # values it couples the slices: a degenerate slice is treated differently depending on what its neighbours contain
+                    guarded = [e2 for e2 in g.events if any(any(x is t for x in walk_terms(c, into_mu=False)) for c, _ in e2.guards)]
+                    raising = {e2.guards for e2 in guarded if e2.kind == 'raise'}
+                    value_guard = [e2 for e2 in guarded if e2.kind not in ('raise', 'assert') and not any(e2.guards[:len(gs)] == gs for gs in raising)]
+                    in_gamma = any(x.op == 'gamma' and any(y is t for y in walk_terms(x.args[0], into_mu=False))
+                                   for r_ in [g.ret] + [e2.term for e2 in g.events if e2.term is not None and e2.kind != 'assert'] for x in walk_terms(r_, into_mu=False))
+                    if value_guard or (in_gamma and not raising):
+                        n += 1
+                        run.violation('R-ELL', f'{short}: {cname.split(".")[-1].split(":")[-1]}() over everything decides a value', fn.loc(t.node),
+                                      f'`{norm_stmt(t.node)}` reduces over all axes and selects what is computed: a slice of a stack is then handled according to the content of the '
+                                      f'other slices', construct=f'R-ELL::{fn.qual}::axisless-guard::{cname}')
+                    continue      # assertions / guards in front of a raise
                 n += 1
                 if (fn.qual, cname) in AXISLESS_OK:
                     run.ok('R-ELL', f'{short}: {cname.split(".")[-1]}() over everything [listed]', fn.loc(t.node), AXISLESS_OK[(fn.qual, cname)])
@@ -292,6 +304,8 @@ def check_initial_expansion(run, A):
 
 def check(run):
     A = run.A
+    from ..opt import check_axisless_squeeze
+    check_axisless_squeeze(run, A, ('pb_bss.distribution.',))
     check_initial_expansion(run, A)
     run.explanation = (
         'Leading-axes polymorphism decided structurally for every distribution model / trainer and mixture trainer documented with `...`: literal axes count from the right and '
